@@ -280,6 +280,7 @@ func runC12Fetch(c *Ctx) {
 		mode := PickS(r, []string{"", "local", "remote", "force", "remote:force", "local:force", "fastlocal"})
 		c12Fetch(c, "fetch-id-wrap", mode, src, p, c12ScriptGen(r, p, plugin.MappingSources{}, 1000))
 	}
+	runC12DropShapes(c)
 	runC12FetchX(c)
 	// the witness of F34: a local profile whose mapping file looks like an absolute URL, -symbolize=none
 	{
